@@ -26,4 +26,27 @@ TEXT = {
                 "rendering is correspondence-checked only.",
         "technique": "Lean 4 proof (induction over the text relating the line table to a scan) + correspondence",
     },
+    "C12": {
+        "level": "Lean 4 theorems for every byte string about a statement-for-statement model of split.go running on the lexer model: the splitter "
+                 "fails iff the lexer does, with the same error; on success the pieces are never empty as a list, carry exactly input[Pos:End], "
+                 "are in range, ordered and at least the separator apart; no runtime panic, termination. Partial: the token-level partition clauses "
+                 "are not proved; they are evaluated on the Go splitter against the Go token stream (token soups with ';' inside literals and comments, "
+                 "joined corpus statements) and the model is tied to the code by the SPLIT channel.",
+        "design_ref": "DESIGN.md §4 C12",
+        "note": "Trusted: Lean kernel + standard axioms; models of split.go and lexer.go validated by SPLIT/LEX on explored inputs; partition clauses "
+                "checked on the implementation only.",
+        "technique": "Lean 4 proof (loop invariant, simulation of the lexer's token stream) + correspondence",
+    },
+    "C03": {
+        "level": "Lean 4 theorems for every byte string and both lexer modes: the lexer never hits a Go runtime panic (every index/slice is a partial "
+                 "operation in the model, loops run on fuel proved sufficient), every *Error has 0<=Pos<=End<=len so building its Position cannot panic, "
+                 "the recovery-mode lexer always returns a token, lexing terminates within len+2 steps, the splitter never panics and returns the lexer's "
+                 "error. Parser: the structural no-escape obligation over the regenerated call graph (see level_note) and, for termination and runtime "
+                 "panics of the productions, every entry point is run under recover and a deadline on exhaustive short byte strings, fragment soups, the "
+                 "corpus and token-level mutations with malformed first tokens / tokens after ';' — that part is exploration, stated as such.",
+        "design_ref": "DESIGN.md §4 C03",
+        "note": "Trusted: Lean kernel + standard axioms; lexer/file/split models validated by LEX/POS/SPLIT on explored inputs. NOT proved: termination "
+                "and panic-freedom of parser.go productions (partial).",
+        "technique": "Lean 4 proof (totality of the modelled lexer/splitter) + correspondence + deadline-guarded execution of all entry points",
+    },
 }
